@@ -171,7 +171,7 @@ func CoqFaults(fs []string) string {
 }
 
 // CoqObs prints the projection of the directories as a Coq [sobs].
-func CoqObs(d Disk, err, reload, runeq bool) string {
+func CoqObs(d Disk, err, reload, runeq, failed bool) string {
 	var files []string
 	fl := append([]FileObs(nil), d.Files...)
 	sort.Slice(fl, func(i, j int) bool { return fl[i].Shard < fl[j].Shard })
@@ -257,8 +257,8 @@ func CoqObs(d Disk, err, reload, runeq bool) string {
 		}
 	}
 	sort.Ints(tc)
-	return fmt.Sprintf("{| o_err := %s; o_reload := %s; o_runeq := %s; o_files := %s; o_def := %s; o_glob := %s; o_crt := %s; o_hostmap := %s; o_rootredir := %s; o_rootssl := %s; o_backmaps := %s; o_tcpmap := %s; o_tcpcrt := %s |}",
-		hx.Bool(err), hx.Bool(reload), hx.Bool(runeq), hx.List(files), def, hx.N(glob), nlist(crt), hx.List(hms), n2list(rr), nlist(rs), hx.List(bms), n2list(tm), nlist(tc))
+	return fmt.Sprintf("{| o_err := %s; o_reload := %s; o_runeq := %s; o_failed := %s; o_files := %s; o_def := %s; o_glob := %s; o_crt := %s; o_hostmap := %s; o_rootredir := %s; o_rootssl := %s; o_backmaps := %s; o_tcpmap := %s; o_tcpcrt := %s |}",
+		hx.Bool(err), hx.Bool(reload), hx.Bool(runeq), hx.Bool(failed), hx.List(files), def, hx.N(glob), nlist(crt), hx.List(hms), n2list(rr), nlist(rs), hx.List(bms), n2list(tm), nlist(tc))
 }
 
 // CoqShardTable prints the shard of every backend of the pools.
@@ -278,6 +278,6 @@ func CoqCase(id, shards int, inline bool, steps []string) string {
 }
 
 // CoqStep prints one [ostep].
-func CoqStep(restart bool, ops []Op, faults []string, qfail int, obs string) string {
-	return fmt.Sprintf("{| s_restart := %s; s_ops := %s; s_faults := %s; s_qfail := %s; s_obs := %s |}", hx.Bool(restart), CoqOps(ops), CoqFaults(faults), hx.N(qfail), obs)
+func CoqStep(restart bool, ops []Op, faults []string, qfail int, deferReload bool, obs string) string {
+	return fmt.Sprintf("{| s_restart := %s; s_ops := %s; s_faults := %s; s_qfail := %s; s_defer := %s; s_obs := %s |}", hx.Bool(restart), CoqOps(ops), CoqFaults(faults), hx.N(qfail), hx.Bool(deferReload), obs)
 }
